@@ -48,6 +48,8 @@ type Plan struct {
 	Multinode             bool                 `json:"multinode"`
 	Odd                   []OddContent         `json:"odd,omitempty"` // odd-content faults (C16)
 	SignerFaults          []SignerFaultSpec    `json:"signer_faults,omitempty"`
+	// SubDutiesLatency delays the answer to every duties request of the beacon committee subscriber
+	SubDutiesLatency time.Duration `json:"sub_duties_latency,omitempty"`
 	// SignerSlow: every signing request takes this long (a slow remote signer); applies with any other signer fault.
 	SignerSlow time.Duration `json:"signer_slow,omitempty"`
 	AccountKind           int                  `json:"account_kind"`
